@@ -29,9 +29,13 @@ P = dict(
           "/ <= 5 (thorough) over {a,b,0xE9} and of length <= 2 over four boundary codes, x every count in [0,len+2] and SIZE_MAX, for strlen, "
           "strcmp, strncmp, strcpy, strncpy, strcat, strncat, strchr, strrchr, strspn, strcspn, strpbrk, strstr (const and non-const overloads), "
           "destinations both as exact-size blocks and embedded between sentinels, strn* additionally with unterminated source arrays of exactly "
-          "the permitted size; then seeded random strings up to length 64. mem*/wmem*: memmove (and memcpy where disjoint) for every "
+          "the permitted size; the read-only two-string functions (strcmp, strncmp, strspn, strcspn, strpbrk, strstr and wcs* twins) additionally "
+          "with ALIASING arguments: both pointers into one block - the identical pointer, and the second (or first) argument a suffix of the "
+          "other at every offset, strncmp with every count (prefix via count) - etl and glibc called with the same two pointers; "
+          "then seeded random strings up to length 64. mem*/wmem*: memmove (and memcpy where disjoint) for every "
           "(src offset, dst offset, n) in a 12-element arena x 3 content patterns, memset for every (offset, n) x 5-6 values, memcmp for every "
-          "pair of blocks of length <= 4/5 over {a,b,0xE9,0} x every n, memchr for every block x n x character, n = 0 with one-past pointers; "
+          "pair of blocks of length <= 4/5 over {a,b,0xE9,0} x every n, memchr for every block x n x character, n = 0 with one-past pointers, memcmp with both pointers into one block (identical, "
+          "overlapping and disjoint ranges, every (i, j, n)); "
           "then seeded random blocks up to 96 elements. cstdlib: all pairs of a 31-43 value boundary grid per type (C's undefined points "
           "excluded) plus seeded random operands. One evaluation = one etl call compared with the glibc call on an identical image. "
           "Distinct = distinct hash of (function/overload, presentation, operands, count); non-trivial = at least one operand non-empty / n != 0 "
